@@ -69,7 +69,7 @@ def build():
              Bounded('C09/native/relay_quiescence_cross_check', 'replay/relay_native.py',
                      ['--len', '5', '--random', '50', '--only', 'relay-paused-at-quiescence,D8'],
                      ['--len', '6', '--random', '300', '--thorough', '--only', 'relay-paused-at-quiescence,D8'],
-                     "relay side: every enabled sequence of <= 5 (quick) / 6 (thorough) events over {arrival, self-metric, connection made / lost / failed, transport paused / resumed, timer round} plus seeded random sequences up to 14 events on the real carbon.client classes with a task.Clock reactor, all timers fired at the end: no run ends with full signalled, no space signal since, and the queue below its low watermark (the known finding D8 excepted)",
+                     "relay side: every enabled sequence of <= 5 (quick) / 6 (thorough) events over {arrival, self-metric, connection made / lost / failed, transport paused / resumed, timer round, orderly stop}, the destination alone in the router or next to a second one, plus seeded random sequences up to 14 events on the real carbon.client classes with a task.Clock reactor, all timers fired at the end: no run ends with a destination in the router and the receivers paused (cacheFull / pauseReceivingMetrics not followed by cacheSpaceAvailable / resumeReceivingMetrics) while the queue is below its low watermark (the known finding D8 -- destination dropped while full and not back -- excepted)",
                      "the reduction of the liveness statement to the handler-exit invariant assumes the pending wake-up runs; this executes the whole chain (timer -> sendQueued -> space callback) on CPython/Twisted for every short history"),
              Bounded('C09/native/cache_flag_cross_check', 'replay/cache_native.py', ['--sweep', '3', 'flag_implies_above_low'], ['--sweep', '4', 'flag_implies_above_low'],
                      "cache side, single thread: every history of <= 3 (quick) / 4 (thorough) stores / drains over 2 metrics x 2 timestamps for MAX_CACHE_SIZE in {1,2,3,inf}, flow control on/off and all seven strategies: cacheTooFull implies size >= the low watermark after every operation",
